@@ -19,7 +19,7 @@ CONSTANTS
   MaxPause = 1
   MaxSub = 3
   MaxLead = 2
-  MaxSnap = 1
+  MaxSnap = 0
   MaxInstall = 1
   PubClasses = {"empty", "short", "long"}
   Hows = {"api", "b2b", "gap"}
